@@ -31,11 +31,11 @@ func VerifC02UpdateReq() {
 	verb := c02Verbs[verif.Choice("verb", len(c02Verbs))]
 	r := &http.Request{Method: verb, Header: http.Header{}, URL: &url.URL{Path: "/api/v1/items/x"}}
 	r.Header["Content-Type"] = []string{"application/json"}
-	itemID := verif.String("path.item_id", 5)
+	itemID := verif.String("path.item_id", verif.L(5))
 	r.SetPathValue("item_id", itemID)
 	q := url.Values{}
 	occ := verif.Choice("count.occurrences", 3)
-	c1, c2 := verif.String("count.first", 11), verif.String("count.second", 3)
+	c1, c2 := verif.String("count.first", verif.L(11)), verif.String("count.second", verif.L(3))
 	switch occ {
 	case 1:
 		q["count"] = []string{c1}
@@ -43,7 +43,7 @@ func VerifC02UpdateReq() {
 		q["count"] = []string{c1, c2}
 	}
 	verif.SetQuery(r, q)
-	note := verif.String("body.note", 4)
+	note := verif.String("body.note", verif.L(4))
 	var body []byte
 	bodyMentionsOther := false
 	switch verif.Choice("body", 4) {
@@ -127,15 +127,15 @@ func VerifC02Kinds() {
 	var v1 string
 	switch field {
 	case "count", "limit", "u32":
-		v1 = verif.StringIn("value", 11, "0-9+-.e x")
+		v1 = verif.StringIn("value", verif.L(11), "0-9+-.e x")
 	case "big", "u64", "ratio", "f32":
-		v1 = verif.StringIn("value", 6, "0-9+-.e x")
+		v1 = verif.StringIn("value", verif.L(6), "0-9+-.e x")
 	case "flag":
-		v1 = verif.StringIn("value", 5, "a-zA-Z01")
+		v1 = verif.StringIn("value", verif.L(5), "a-zA-Z01")
 	default:
-		v1 = verif.String("value", 4)
+		v1 = verif.String("value", verif.L(4))
 	}
-	v2 := verif.String("second", 2)
+	v2 := verif.String("second", verif.L(2))
 	two := false
 	if field == "tag" || field == "count" {
 		two = verif.Bool("twoOccurrences")
